@@ -1,6 +1,7 @@
 (** C05 — executable model of chain33's state pruning
     (system/store/mavl/db/{tree.go,node.go,prune.go}) in the only configuration
-    the store offers for it: EnableMavlPrune forces EnableMavlPrefix.
+    the store offers for it: EnableMavlPrune forces EnableMavlPrefix
+    ([effective_cfg] below = the configuration resolution of mavl.go New).
     Transcribed function by function, defects included.  No proofs here.
 
     Reused from C01: the tree type and [set]/[balance]/rotations ([C01.Model])
@@ -483,4 +484,37 @@ Definition mem_set_commit (c : cfg) (d : pdb) (H : Z) (parent : option hash) (kv
   match kvs with
   | [] => COk d parent
   | _ => set_kv_pair c d H parent kvs
+  end.
+
+(** ---- the store's configuration (system/store/mavl/mavl.go, New) ---- *)
+
+(** the sub-configuration as the operator writes it (JSON: enableMavlPrefix,
+    enableMavlPrune, pruneHeight; the other switches do not concern pruning) *)
+Record sub_cfg := mk_sub_cfg {
+  sc_prefix : bool;
+  sc_prune : bool;
+  sc_prune_height : Z }.
+
+(** the TreeConfig every tree of the store is built with *)
+Record tree_cfg := mk_tree_cfg {
+  tc_prefix : bool;        (* node keys carry the creation-height prefix *)
+  tc_prune : bool;
+  tc_prune_height : Z }.
+
+(** New: "if subcfg.EnableMavlPrune { subcfg.EnableMavlPrefix = subcfg.EnableMavlPrune }"
+    BEFORE the TreeConfig is filled from subcfg *)
+Definition effective_cfg (s : sub_cfg) : tree_cfg :=
+  let prefix := if sc_prune s then sc_prune s else sc_prefix s in
+  mk_tree_cfg prefix (sc_prune s) (sc_prune_height s).
+
+(** Store.Get: a root that does not load (Tree.Load: ErrNodeNotExist) gives nil
+    for every key, indistinguishable from "absent"; a node missing below the
+    root is the usual panic *)
+Definition store_get_at_root (d : pdb) (root : option hash) (k : bytes) : wres :=
+  match root with
+  | None => WAbsent
+  | Some h => match node_get d (None, h) with
+              | None => WAbsent
+              | Some _ => get_at_root d root k
+              end
   end.
